@@ -28,7 +28,7 @@ def case_line(c):
 def parse_case(line):
     f = sp.fields(line)
     rows = [[Fraction(v) for v in r.split(",")] for r in f["data"].split(";")]
-    return {"method": f["method"], "N": int(f["N"]), "d": int(f["d"]), "solver": f["solver"], "inp": f["inp"],
+    return {"method": f["method"], "N": int(f["N"]), "d": int(f["d"]), "solver": f["solver"], "inp": f["in"],
             "D": int(f.get("D", "0")), "seed": int(f.get("seed", "1")), "exact": f.get("exact") == "1",
             "lowrank": f.get("lowrank") == "1", "rows": rows, "label": "replay", "rank": None}
 
